@@ -100,6 +100,7 @@ func (c *Ctx) announcedSizeIsSumOfParts(rule string) {
 	}
 	n := 0
 	for _, f := range c.productFuncs() {
+		ord := 0
 		for _, ret := range engine.Returns(f) {
 			var mr *ssa.Call
 			var size ssa.Value
@@ -140,9 +141,10 @@ func (c *Ctx) announcedSizeIsSumOfParts(rule string) {
 				continue
 			}
 			n++
+			ord++
 			diff := add(linOf(size, 0), sum, -1)
 			ok2 := len(diff.m) == 0 && diff.k == 0
-			R.Check(ok2, rule, c.name(f)+"|size = sum of the reader's parts|"+P.Pos(ret.Pos()), P.Pos(ret.Pos()), "the returned size equals the total length of the parts", "the size returned with the reader differs from the total length of the reader's parts (size - parts = "+show(diff)+"): the stored RFC822.SIZE is not the length of the literal that is stored and fetched")
+			R.Check(ok2, rule, c.name(f)+fmt.Sprintf("|size = sum of the reader's parts|#%d", ord), P.Pos(ret.Pos()), "the returned size equals the total length of the parts", "the size returned with the reader differs from the total length of the reader's parts (size - parts = "+show(diff)+"): the stored RFC822.SIZE is not the length of the literal that is stored and fetched")
 		}
 	}
 	R.Min(rule, "returns of a MultiReader over byte slices with a size", n, 2)
